@@ -2,8 +2,8 @@ SPECIFICATION Spec
 CONSTANTS
  Keys = {1, 2}
  Txns = {1, 2, 3}
- StartTs <- StartA
- CommitTs <- CommitB
+ StartTs <- StartB
+ CommitTs <- CommitC
  KindOf <- KindsB
  TTLOf <- TTLA
  MinCOf <- MinCB
@@ -11,13 +11,13 @@ CONSTANTS
  PrimaryOf <- PrimA
  ValOf <- ValsA
  CheckArgs <- ChecksQ
- ReadTs = {10, 20, 25, 30, 35, 45, 50}
+ ReadTs = {5, 10, 20, 25, 30, 40, 50}
  Limits = {1, 16}
  Ops <- AllOps
  Boosts = {0, 7}
  Dev = {}
- GenMode = "mixed"
- MaxHist = 14
-INVARIANT EmitHist
-ACTION_CONSTRAINT GenConstraint
+ GenMode = "any"
+ MaxHist = 0
+INVARIANT GoodOrCex
+PROPERTY Final
 CHECK_DEADLOCK FALSE
